@@ -30,7 +30,8 @@ type Op struct {
 	Variant   string     `json:"variant,omitempty"`
 	TooBig    int        `json:"too_big,omitempty"`      // publish: the value of message TooBig-1 of the batch is replaced by one byte more than the format's 64 MiB bound: the Publish must fail and leave nothing behind
 	CrashDel  []int64    `json:"crash_delete,omitempty"` // reopen: the directory is replaced by its image taken inside a Delete of these offsets (after the rewrite, before the swap)
-	StopAfter int        `json:"stop_after,omitempty"`   // multi variants: the backoff fails on its n-th call (0 = never)
+	StopAfter int        `json:"stop_after,omitempty"`
+	CancelAt  int        `json:"cancel_at,omitempty"` // multi variants: the context is cancelled before the call (-1) or inside the n-th backoff, which returns nil   // multi variants: the backoff fails on its n-th call (0 = never)
 	Msgs      []PubMsg   `json:"msgs,omitempty"`
 	Offsets   []int64    `json:"offsets,omitempty"`
 	N         int64      `json:"n,omitempty"`
@@ -476,6 +477,11 @@ func (g *GenState) genDelete(m *ref.Model, lay Layout) Op {
 	}
 	if op.Variant != "" && r.Chance(0.2) {
 		op.StopAfter = 1 + r.Intn(3)
+	} else if op.Variant != "" && r.Chance(0.15) {
+		op.CancelAt = r.Intn(4) - 1
+		if op.CancelAt == 0 {
+			op.CancelAt = -1
+		}
 	}
 	return op
 }
@@ -486,6 +492,11 @@ func (g *GenState) genTrim(m *ref.Model, statSize int64) Op {
 	op.Variant = pick(r, []string{"", "multi", "multi", "multioffsets", "find"})
 	if (op.Variant == "multi" || op.Variant == "multioffsets") && r.Chance(0.2) {
 		op.StopAfter = 1 + r.Intn(3)
+	} else if (op.Variant == "multi" || op.Variant == "multioffsets") && r.Chance(0.15) {
+		op.CancelAt = r.Intn(4) - 1
+		if op.CancelAt == 0 {
+			op.CancelAt = -1
+		}
 	}
 	switch op.Sub {
 	case "offset":
@@ -541,6 +552,11 @@ func (g *GenState) genCompact(m *ref.Model) Op {
 	op.Variant = pick(r, []string{"", "multi", "multi", "multioffsets", "find"})
 	if (op.Variant == "multi" || op.Variant == "multioffsets") && r.Chance(0.2) {
 		op.StopAfter = 1 + r.Intn(3)
+	} else if (op.Variant == "multi" || op.Variant == "multioffsets") && r.Chance(0.15) {
+		op.CancelAt = r.Intn(4) - 1
+		if op.CancelAt == 0 {
+			op.CancelAt = -1
+		}
 	}
 	op.N = g.genCutoff(m)
 	if op.Sub == "both" {
